@@ -148,7 +148,13 @@ def i_exit(i, fmap):
 @__npc
 def i_call(i, fmap):
     cmd = i.misc["imm_ref"]
-    cmd(fmap)
+    if cmd is None:
+        # the helper has not been resolved to a stub: its effect is unknown,
+        # r0 (return value) and the caller-saved r1-r5 are clobbered.
+        for r in R[0:6]:
+            fmap[r] = top(r.size)
+    else:
+        cmd(fmap)
 
 
 @__npc
